@@ -7,6 +7,7 @@ package cworld
 import (
 	"fmt"
 	"strings"
+	"sync"
 	"time"
 
 	"verif/engine"
@@ -188,7 +189,13 @@ func New(o Opts) *World {
 	}
 	reg := func(addr string, k *simkdc.KDC) {
 		for _, n := range []string{"udp", "tcp"} {
-			vnet.Register(n, addr, &vnet.Endpoint{Behaviour: vnet.Answer, Handler: func(network, a string, req []byte) []byte { return k.Handle(network, req) }})
+			vnet.Register(n, addr, &vnet.Endpoint{Behaviour: vnet.Answer, Handler: func(network, a string, req []byte) []byte {
+				// the simulated KDCs are sequential objects: serialise them for the free-running race pass
+				// (under the cooperative scheduler only one thread runs and Handle has no scheduling point)
+				kdcMu.Lock()
+				defer kdcMu.Unlock()
+				return k.Handle(network, req)
+			}})
 		}
 	}
 	for i := 0; i < o.NKDC; i++ {
@@ -249,6 +256,8 @@ func (w *World) KeyOf(name ...string) []byte {
 }
 
 var _ = rcrypto.AES256
+
+var kdcMu sync.Mutex
 
 var confCache = map[string]*config.Config{}
 
